@@ -20,6 +20,9 @@ pub struct Case {
 	pub fam: Fam,
 	pub authority: String,
 	pub route: Route,
+	/// an authority of the same length that is parsed and read, at the same address, just before
+	#[serde(default)]
+	pub before: Option<String>,
 }
 
 pub struct C03;
@@ -57,32 +60,58 @@ both_families! {
 		// validity gate: only valid authorities are in the domain (an arbitrary text embedded in
 		// a URI would simply parse as something else)
 		if Authority::new(text).is_err() { return Ok(false) }
+		if let Some(b) = &case.before {
+			// the predecessor in the re-used buffer: parse it and read every part (judged too)
+			if Authority::new(b.as_str()).is_err() { return Ok(false) }
+			let bexp = split_authority(b);
+			gen::with_arena(b, |s| match Authority::new(s) {
+				Ok(a) => judge("predecessor in the re-used buffer", a, b, &bexp),
+				Err(_) => Ok(()),
+			})?;
+		}
 		match case.route {
 			Route::Standalone => {
 				let a = match Authority::new(text) { Ok(a) => a, Err(_) => return Ok(false) };
 				judge("stand-alone borrowed", a, text, exp)?;
 				let ab = AuthorityBuf::new(text.into()).map_err(|_| Failure::new("owned-rejects", format!("AuthorityBuf rejects {:?}", text)))?;
 				judge("stand-alone owned", &ab, text, exp)?;
-				cx.obs(22);
+				// the same text at the address where the previous authority of this length was (re-used buffer),
+				// and at an odd offset inside a larger buffer
+				gen::with_arena(text, |s| match Authority::new(s) {
+					Ok(a) => judge("stand-alone, in a re-used buffer", a, text, exp).map_err(|f| Failure::new(format!("reused-buffer:{}", f.sig), f.msg)),
+					Err(_) => Err(Failure::new("reused-buffer:rejects", format!("Authority::new rejects {:?} when it lives in a re-used buffer", text))),
+				})?;
+				gen::with_misaligned(text, |s, k| match Authority::new(s) {
+					Ok(a) => judge("stand-alone, misaligned", a, text, exp).map_err(|f| Failure::new(format!("misaligned:{}", f.sig), format!("(at byte offset {k} of a larger buffer) {}", f.msg))),
+					Err(_) => Err(Failure::new("misaligned:rejects", format!("Authority::new rejects {:?} at byte offset {k} of a larger buffer", text))),
+				})?;
+				cx.obs(44);
 			}
 			Route::InFull => {
-				let t = format!("s://{text}/p?q:@#f:@");
-				let r = match Ri::new(t.as_str()) { Ok(r) => r, Err(_) => return Ok(false) };
-				let a = r.authority().ok_or_else(|| Failure::new("authority-missing", format!("{:?}: authority() is None", t)))?;
-				judge("inside a full URI/IRI", a, text, exp)?;
-				let a2 = r.parts().authority.ok_or_else(|| Failure::new("authority-missing", format!("{:?}: parts().authority is None", t)))?;
-				judge("inside a full URI/IRI (parts)", a2, text, exp)?;
-				cx.obs(22);
+				// every combination of a scheme (well-known ones included) and of what follows the authority
+				for scheme in ["s", "http", "https", "file", "HTTP"] {
+					for tail in ["/p?q:@#f:@", "", "/", "#/f/g", "?q/r:@", "#", "?", "/p#@h:1"] {
+						let t = format!("{scheme}://{text}{tail}");
+						let r = match Ri::new(t.as_str()) { Ok(r) => r, Err(_) => return Ok(false) };
+						let a = r.authority().ok_or_else(|| Failure::new("authority-missing", format!("{:?}: authority() is None", t)))?;
+						judge(&format!("inside {:?}", t), a, text, exp)?;
+						let a2 = r.parts().authority.ok_or_else(|| Failure::new("authority-missing", format!("{:?}: parts().authority is None", t)))?;
+						judge(&format!("inside {:?} (parts)", t), a2, text, exp)?;
+						cx.obs(22);
+					}
+				}
 			}
 			Route::InReference => {
-				let t = format!("//{text}");
-				let r = match RiRef::new(t.as_str()) { Ok(r) => r, Err(_) => return Ok(false) };
-				let a = r.authority().ok_or_else(|| Failure::new("authority-missing", format!("{:?}: authority() is None", t)))?;
-				judge("inside a reference", a, text, exp)?;
-				let ob = RiRefBuf::new(t.as_str().into()).map_err(|_| Failure::new("owned-rejects", format!("owned reference rejects {:?}", t)))?;
-				let a = ob.authority().ok_or_else(|| Failure::new("authority-missing", format!("{:?}: owned authority() is None", t)))?;
-				judge("inside an owned reference", a, text, exp)?;
-				cx.obs(22);
+				for tail in ["", "/p", "#/f", "?q/@:", "#"] {
+					let t = format!("//{text}{tail}");
+					let r = match RiRef::new(t.as_str()) { Ok(r) => r, Err(_) => return Ok(false) };
+					let a = r.authority().ok_or_else(|| Failure::new("authority-missing", format!("{:?}: authority() is None", t)))?;
+					judge(&format!("inside the reference {:?}", t), a, text, exp)?;
+					let ob = RiRefBuf::new(t.as_str().into()).map_err(|_| Failure::new("owned-rejects", format!("owned reference rejects {:?}", t)))?;
+					let a = ob.authority().ok_or_else(|| Failure::new("authority-missing", format!("{:?}: owned authority() is None", t)))?;
+					judge(&format!("inside the owned reference {:?}", t), a, text, exp)?;
+					cx.obs(22);
+				}
 			}
 		}
 		Ok(true)
@@ -91,9 +120,9 @@ both_families! {
 
 fn pool_product(fam: Fam) -> Vec<String> {
 	// the same pools the random generator draws from, enumerated completely
-	let ui: Vec<Option<&str>> = vec![None, Some(""), Some("u"), Some("u:p"), Some(":"), Some("a:b:c"), Some("u:"), Some(":p"), Some("%41"), Some("%3A%40"), Some("a;b=c")];
+	let ui: Vec<Option<&str>> = vec![None, Some(""), Some("u"), Some("u:p"), Some(":"), Some("a:b:c"), Some("u:"), Some(":p"), Some("%41"), Some("%3A%40"), Some("a;b=c"), Some("user:12345"), Some("u:65535"), Some(":8080"), Some("12345"), Some("u:1234"), Some("a:b:c:d:e:f:g:h:i:j")];
 	let ui_iri: Vec<Option<&str>> = vec![Some("\u{e9}"), Some("\u{e9}:\u{8a9e}")];
-	let mut hosts: Vec<&str> = vec!["", "h", "example.org", "127.0.0.1", "999.1.1.1", "1.2.3", "%41", "%3A", "h~!$&'()*+,;=", "0"];
+	let mut hosts: Vec<&str> = vec!["", "h", "example.org", "127.0.0.1", "999.1.1.1", "1.2.3", "%41", "%3A", "h~!$&'()*+,;=", "0", "12345", "65535"];
 	hosts.extend(gen::IPV6_POOL.iter());
 	let hosts_iri: Vec<&str> = vec!["\u{e9}", "r\u{e9}sum\u{e9}.example"];
 	let ports: Vec<Option<&str>> = vec![None, Some(""), Some("0"), Some("80"), Some("00080"), Some("123456789012345678901234567890")];
@@ -123,7 +152,7 @@ impl Prop for C03 {
 	const ID: &'static str = "C03";
 
 	fn rule() -> String {
-		"cases = (family, authority text, route in {stand-alone Authority::new + AuthorityBuf, inside 's://A/p?q:@#f:@', inside '//A' borrowed+owned}). Enumerated completely: the product user-info pool (absent, empty, plain, with ':', several ':', pct, non-ASCII) x host pool (empty, reg-names, IPv4, IPv4-like reg-name, 18 IP-literal shapes, pct, non-ASCII) x port pool (absent, empty, digits, leading zeros, 30 digits), both families, 3 routes. Random: same pools plus raw tokens assembled from the legal character classes. Oracle: RFC 3986 3.2 splitter (user info = text before '@'; host = '[...]' or text up to ':'; port = rest after ':'). Non-trivial: at least two of the three parts present, or an IP-literal host.".into()
+		"cases = (family, authority text, route in {stand-alone Authority::new + AuthorityBuf + the same text in a re-used buffer (same address as the previous authority of that length) + at an odd offset of a larger buffer; inside '<scheme>://A<tail>' for 5 schemes (s, http, https, file, HTTP) x 8 tails (path/query/fragment present or not, '/' '@' ':' inside query and fragment); inside '//A<tail>' borrowed+owned for 5 tails}). Enumerated completely: the product user-info pool (absent, empty, plain, with ':', several ':', pct, non-ASCII) x host pool (empty, reg-names, IPv4, IPv4-like reg-name, 18 IP-literal shapes, pct, non-ASCII) x port pool (absent, empty, digits, leading zeros, 30 digits), both families, 3 routes. Random: same pools plus raw tokens assembled from the legal character classes. Oracle: RFC 3986 3.2 splitter (user info = text before '@'; host = '[...]' or text up to ':'; port = rest after ':'). Non-trivial: at least two of the three parts present, or an IP-literal host.".into()
 	}
 
 	fn cases(tier: Tier) -> u64 {
@@ -146,7 +175,7 @@ impl Prop for C03 {
 						recompose_authority(&p)
 					}),
 				]
-				.prop_map(move |authority| Case { fam: f, authority, route })
+				.prop_map(move |authority| Case { fam: f, authority, route, before: None })
 			})
 			.boxed()
 	}
@@ -187,13 +216,46 @@ impl Prop for C03 {
 					if i % nshards != shard {
 						continue;
 					}
-					if !f(Case { fam, authority: a.clone(), route }, true) {
+					if !f(Case { fam, authority: a.clone(), route, before: None }, true) {
 						return vec![];
 					}
 				}
 			}
 		}
-		vec!["full product userinfo pool x host pool x port pool, both families, three routes"]
+		// equal-length authorities (>= 48 bytes) that differ only in WHERE their delimiters are, every ordered
+		// pair read one after the other from the same buffer
+		let mut pairs = 0usize;
+		for len in [48usize, 49, 64, 100, 300] {
+			let mut variants: Vec<String> = vec![];
+			for ui in [None, Some(""), Some("u"), Some("deploy:s3cr3t"), Some(":"), Some("a:b:c")] {
+				for port in [None, Some(""), Some("8443"), Some("1")] {
+					for host_kind in 0..3 {
+						let fixed = ui.map(|u: &str| u.len() + 1).unwrap_or(0) + port.map(|p: &str| p.len() + 1).unwrap_or(0);
+						let room = match len.checked_sub(fixed) { Some(r) => r, None => continue };
+						let host = match host_kind {
+							0 => "a".repeat(room),
+							1 if room >= 8 => format!("[v1.{}:b]", "a".repeat(room - 8)),
+							2 if room >= 12 => format!("{}.{}", "a".repeat(room - 6), "b:c".replace(':', "-")) + "x",
+							_ => continue,
+						};
+						if host.len() != room { continue }
+						variants.push(recompose_authority(&AuthParts { userinfo: ui.map(|s| s.to_string()), host, port: port.map(|s| s.to_string()) }));
+					}
+				}
+			}
+			for (ai, a) in variants.iter().enumerate() {
+				for (bi, b) in variants.iter().enumerate() {
+					if ai == bi { continue }
+					pairs += 1;
+					if pairs % nshards != shard { continue }
+					let fam = if pairs % 2 == 0 { Fam::Uri } else { Fam::Iri };
+					if !f(Case { fam, authority: b.clone(), route: Route::Standalone, before: Some(a.clone()) }, true) {
+						return vec![];
+					}
+				}
+			}
+		}
+		vec!["full product userinfo pool x host pool x port pool, both families, three routes", "every ordered pair of equal-length authorities (48, 49, 64, 100, 300 bytes; 6 user infos x 4 ports x 3 host shapes) read one after the other from the same buffer"]
 	}
 
 	fn floors(_tier: Tier) -> Vec<(&'static str, u64)> {
